@@ -36,6 +36,8 @@ func Run(ctx *common.Ctx) {
 	distinct := map[string]bool{}
 	var keep []slip.List // keeps every array alive so that addresses are never reused
 	vn := func(i int) string { return fmt.Sprintf("lv%d", i) }
+	scripts := removeFamilyScripts()
+	ncases += len(scripts)
 	for k := 0; len(terms) < ncases; k++ {
 		scope := slip.NewScope()
 		for i := 0; i < nvars; i++ {
@@ -91,6 +93,11 @@ func Run(ctx *common.Ctx) {
 			return
 		}
 		L := 3 + ctx.Rng.Intn(maxLen-2)
+		var script [][2]string
+		if k < len(scripts) {
+			script = scripts[k]
+			L = len(script)
+		}
 		forcedSrc, forcedAvoid, forcedX := -1, -1, 0 // second extension of the same list into another variable
 		var gops, gobs []string
 		var recs []stepRec
@@ -164,7 +171,13 @@ func Run(ctx *common.Ctx) {
 				}
 			}
 			needList := func() bool { return lens[src] == 0 }
+			scripted := script != nil
+			if scripted {
+				lisp, g = script[step][0], script[step][1]
+			}
 			switch {
+			case scripted:
+				// an enumerated history: nothing to choose
 			case x < 7:
 				n := 1 + ctx.Rng.Intn(5)
 				var xs, gx []string
@@ -272,9 +285,27 @@ func Run(ctx *common.Ctx) {
 				lisp, g = fmt.Sprintf("(setq %s (nconc %s %s))", vn(dst), vn(src), vn(b)), fmt.Sprintf("ONconc %d %d %d", src, b, dst)
 			case x < 92:
 				lisp, g = fmt.Sprintf("(setq %s (sort %s '<))", vn(dst), vn(src)), fmt.Sprintf("OSort %d %d", src, dst)
-			case x < 95:
+			case x < 94:
 				k := 1 + ctx.Rng.Intn(3)
 				lisp, g = fmt.Sprintf("(setq %s (mapcar (lambda (el) (+ el %d)) %s))", vn(dst), k, vn(src)), fmt.Sprintf("OMapcar %d %d %d", k, src, dst)
+			case x >= 97:
+				// remove-if / delete-if (RemoveIf embeds DeleteIf) with a predicate, optionally :count and :from-end
+				preds := [][2]string{{"'evenp", "PEven"}, {"'oddp", "POdd"}, {fmt.Sprintf("(lambda (el) (< el %d))", next-3), fmt.Sprintf("(PLess %d)", next-3)}}
+				pr := preds[ctx.Rng.Intn(len(preds))]
+				fname := "remove-if"
+				if ctx.Rng.Bool() {
+					fname = "delete-if"
+				}
+				opts, gcnt, gfe := "", "None", "false"
+				if ctx.Rng.Chance(35) {
+					n := ctx.Rng.Intn(3)
+					opts, gcnt = fmt.Sprintf(" :count %d", n), fmt.Sprintf("(Some %d%%nat)", n)
+				}
+				if ctx.Rng.Chance(35) {
+					opts, gfe = opts+" :from-end t", "true"
+				}
+				lisp = fmt.Sprintf("(setq %s (%s %s %s%s))", vn(dst), fname, pr[0], vn(src), opts)
+				g = fmt.Sprintf("ORemoveIf %s %s %s %d %d", pr[1], gcnt, gfe, src, dst)
 			default:
 				// remove / delete an element that is (usually) present
 				e := fresh()
@@ -336,7 +367,7 @@ func Run(ctx *common.Ctx) {
 	}
 	_ = keep
 	ctx.Meta.DistinctNontrivial = len(distinct)
-	ctx.Meta.Rule = "random histories (3..13 steps, thorough 3..14) over 4 variables of list, cons, list*, cdr/rest, nthcdr, member, last, butlast, subseq, copy-list, reverse, append, add, push, pop, (setf car), (setf nth), (setf elt), rplaca, rplacd, nreverse, nconc, sort, remove, delete, mapcar; fresh integers as elements; after every step each variable's contents and (array identity, offset, capacity) read from the slip.List header; distinct = distinct op sequences"
+	ctx.Meta.Rule = "random histories (3..13 steps, thorough 3..14) over 4 variables of list, cons, list*, cdr/rest, nthcdr, member, last, butlast, subseq, copy-list, reverse, append, add, push, pop, (setf car), (setf nth), (setf elt), rplaca, rplacd, nreverse, nconc, sort, remove, delete, remove-if, delete-if (:count, :from-end), mapcar; preceded by 392 enumerated four-step histories of the removing functions (every pattern of removed positions in a list of four x predicate x :count x :from-end, with a tail view before and a write into the result after); fresh integers as elements; after every step each variable's contents and (array identity, offset, capacity) read from the slip.List header; distinct = distinct op sequences"
 	header := "From C06 Require Import Model Spec Corr.\n"
 	footer := "Definition res := Eval vm_compute in check_all cases.\nPrint res.\nDefinition gcount := Eval vm_compute in guard_count cases.\nPrint gcount.\n"
 	ctx.WriteShards("cases", header, "case", footer, terms, descs, 16)
@@ -381,4 +412,84 @@ func runtimeSlices(ctx *common.Ctx) {
 			}
 		}
 	}
+}
+
+// removeFamilyScripts: enumerated histories for the removing functions. A list of four elements in every
+// pattern of removed / kept positions (16), a tail view of it (nthcdr 1), then remove-if or delete-if with each
+// kind of predicate (evenp, oddp, a lambda), with and without :count 1, with and without :from-end t, stored
+// in a third variable, then a write into the result (or a copy when the result is empty): 384 histories. The
+// same with remove / delete of the element at each position: 8 more.
+func removeFamilyScripts() (out [][][2]string) {
+	type pk struct{ lisp, g string }
+	for _, fname := range []string{"remove-if", "delete-if"} {
+		for pi := 0; pi < 3; pi++ {
+			for _, cnt := range []int{-1, 1} {
+				for _, fe := range []bool{false, true} {
+					for pat := 0; pat < 16; pat++ {
+						var xs []string
+						ones := 0
+						for i := 0; i < 4; i++ {
+							rm := pat>>i&1 == 1
+							if rm {
+								ones++
+							}
+							var v int
+							switch pi {
+							case 0: // evenp removes the even ones
+								v = 11 + 2*i
+								if rm {
+									v = 10 + 2*i
+								}
+							case 1:
+								v = 10 + 2*i
+								if rm {
+									v = 11 + 2*i
+								}
+							default: // (< el 50)
+								v = 60 + i
+								if rm {
+									v = 10 + i
+								}
+							}
+							xs = append(xs, fmt.Sprint(v))
+						}
+						p := []pk{{"'evenp", "PEven"}, {"'oddp", "POdd"}, {"(lambda (el) (< el 50))", "(PLess 50)"}}[pi]
+						opts, gcnt, gfe := "", "None", "false"
+						removed := ones
+						if cnt >= 0 {
+							opts, gcnt = fmt.Sprintf(" :count %d", cnt), fmt.Sprintf("(Some %d%%nat)", cnt)
+							if removed > cnt {
+								removed = cnt
+							}
+						}
+						if fe {
+							opts, gfe = opts+" :from-end t", "true"
+						}
+						h := [][2]string{
+							{fmt.Sprintf("(setq lv0 (list %s))", strings.Join(xs, " ")), fmt.Sprintf("OList [%s]%%Z 0", strings.Join(xs, ";"))},
+							{"(setq lv1 (nthcdr 1 lv0))", "ONthcdr 1 0 1"},
+							{fmt.Sprintf("(setq lv2 (%s %s lv0%s))", fname, p.lisp, opts), fmt.Sprintf("ORemoveIf %s %s %s 0 2", p.g, gcnt, gfe)},
+						}
+						if 4-removed > 0 {
+							h = append(h, [2]string{"(setf (car lv2) 999)", "OSetcar 2 999"})
+						} else {
+							h = append(h, [2]string{"(setq lv3 (copy-list lv0))", "OCopy 0 3"})
+						}
+						out = append(out, h)
+					}
+				}
+			}
+		}
+	}
+	for _, fname := range []string{"remove", "delete"} {
+		for pos := 0; pos < 4; pos++ {
+			out = append(out, [][2]string{
+				{"(setq lv0 (list 21 22 23 24))", "OList [21;22;23;24]%Z 0"},
+				{"(setq lv1 (nthcdr 1 lv0))", "ONthcdr 1 0 1"},
+				{fmt.Sprintf("(setq lv2 (%s %d lv0))", fname, 21+pos), fmt.Sprintf("ORemove %d 0 2", 21+pos)},
+				{"(setf (car lv2) 999)", "OSetcar 2 999"},
+			})
+		}
+	}
+	return
 }
